@@ -152,6 +152,38 @@ Theorem C06_sql_add_once : forall bprog db0 cfg k,
 Proof. exact gen_sql_add_once. Qed.
 Print Assumptions C06_sql_add_once.
 
+(** concurrent Removes of one key: exactly the first to take effect succeeds *)
+Theorem C06_mem_remove_once : forall bprog m0 cfg k e,
+  mreachable (minit (mem_prog bprog) m0) cfg -> nodupk m0 ->
+  (forall i, forallb bop_okb (bprog i) = true) ->
+  (forall i, Forall (remove_or_other k) (bprog i)) ->
+  @lookup entry k m0 = Some e -> mem_quiet cfg ->
+  exists ops,
+    mcalls (mdone cfg) = map mem_call ops /\
+    match key_ops k ops with
+    | [] => lookup k (msh cfg) = Some e
+    | _ :: rest =>
+        lookup k (msh cfg) = None /\
+        key_results k ops (mresults (mdone cfg)) = RUnit :: repeat (RErr ENotFound) (List.length rest)
+    end.
+Proof. exact mem_remove_once. Qed.
+Print Assumptions C06_mem_remove_once.
+
+Theorem C06_sql_remove_once : forall bprog db0 cfg k e,
+  qreachable gen_sqlite_methods (qinit bprog db0) cfg -> nodupk db0 ->
+  (forall i, forallb bop_okb (bprog i) = true) ->
+  (forall i, Forall (remove_or_other k) (bprog i)) ->
+  @lookup entry k db0 = Some e ->
+  let ops := qops (applied (qdone cfg)) in
+  match key_ops k ops with
+  | [] => lookup k (abs (qdb cfg)) = Some e
+  | _ :: rest =>
+      lookup k (abs (qdb cfg)) = None /\
+      key_results k ops (qresults (applied (qdone cfg))) = RUnit :: repeat (RErr ENotFound) (List.length rest)
+  end.
+Proof. exact gen_sql_remove_once. Qed.
+Print Assumptions C06_sql_remove_once.
+
 Theorem C06_mem_emplace_keeps_first : forall bprog m0 cfg k,
   mreachable (minit (mem_prog bprog) m0) cfg -> nodupk m0 ->
   (forall i, forallb bop_okb (bprog i) = true) ->
